@@ -1,7 +1,7 @@
 (* C02 correspondence glue: decidable equality of projections (maps compared as maps) and the case check
    `denote spec = observed`. *)
-From Coq Require Import String List ZArith Ascii Bool.
-Require Import Verif.Base.Harness Verif.Front.Ast Verif.Front.Denote Verif.Front.Canon.
+From Coq Require Import String List ZArith NArith Ascii Bool.
+Require Import Verif.Base.Harness Verif.Front.Ast Verif.Front.Denote Verif.Front.Canon Verif.Front.CanonFull.
 Import ListNotations.
 Local Open Scope string_scope.
 
@@ -110,7 +110,22 @@ Definition module_eqb := amap_eqb app_eqb.
    (None: the text was rejected). The listener model must reproduce it; and whenever the specification is in the
    sub-language of Front/Canon.v, well-formed and not re-scoped, so must the declarative reading `canon`
    (by CanonProps.denote_canon the two coincide there - this ties `canon` itself to the implementation). *)
+(* ... and the same for the reading `canonf` of the whole member language (REST trees, subscriptions, collector
+   blocks; CanonFullProps.denote_canon_full): `canonf spec = observed` whenever wf_full holds and postProcess has
+   nothing to do, and `post (canonf spec) = observed` whenever wf_full holds (mixins, re-scoped references and
+   collector entries applied to the declarative reading). *)
+Definition full_final (s:spec) : bool :=
+  wf_full s && no_mixins (canonf s) && no_rescope (canonf s) && no_collector (canonf s).
 Definition ok (c : spec * option module) : bool :=
   option_eqb module_eqb (denote (fst c)) (snd c) &&
   (if wf_sub (fst c) && no_mixins (canon (fst c)) && no_rescope (canon (fst c)) && no_collector (canon (fst c))
-   then option_eqb module_eqb (Some (canon (fst c))) (snd c) else true).
+   then option_eqb module_eqb (Some (canon (fst c))) (snd c) else true) &&
+  (if full_final (fst c) then option_eqb module_eqb (Some (canonf (fst c))) (snd c) else true) &&
+  (if wf_full (fst c) then option_eqb module_eqb (post (canonf (fst c))) (snd c) else true).
+
+(* how many cases of a file the global equalities cover (a count, printed next to M; not a theorem):
+   (canon = observed checked, canonf = observed checked, post canonf = observed checked, cases) *)
+Definition cover (cases : list (N * (spec * option module))) : N * N * N * N :=
+  let cnt (f : spec -> bool) := N.of_nat (List.length (filter (fun c => f (fst (snd c))) cases)) in
+  (cnt (fun s => wf_sub s && no_mixins (canon s) && no_rescope (canon s) && no_collector (canon s)),
+   cnt full_final, cnt wf_full, N.of_nat (List.length cases)).
